@@ -88,9 +88,11 @@ def run_table(ctx, config, body):
     from oslo_policy import policy as _policy
     via = ctx.choice('via', ['ctor-rules', 'set_rules', 'set_rules-Rules',
                              'set_rules-Rules-other-default',
+                             'set_rules-Rules-same-default',
                              'ctor-Rules-other-default', 'file-yaml',
                              'file-json'])
     env = None
+    handed = None               # the caller's own Rules object, if any
     if via in ('file-yaml', 'file-json'):
         # the rule set comes from a real UTF-8 policy file (no \\u escapes)
         import json
@@ -110,8 +112,8 @@ def run_table(ctx, config, body):
         enf = common.mk_enforcer(rules=dict(rules), default_rule=ctor,
                                  conf=conf)
     elif via == 'ctor-Rules-other-default':
-        enf = common.mk_enforcer(rules=_policy.Rules(dict(rules), 'b'),
-                                 default_rule=ctor, conf=conf)
+        handed = _policy.Rules(dict(rules), 'b')
+        enf = common.mk_enforcer(rules=handed, default_rule=ctor, conf=conf)
     else:
         enf = common.mk_enforcer(default_rule=ctor, conf=conf)
         # the enforcer's configured default rule governs, whatever the
@@ -119,9 +121,14 @@ def run_table(ctx, config, body):
         if via == 'set_rules':
             enf.set_rules(dict(rules))
         elif via == 'set_rules-Rules':
-            enf.set_rules(_policy.Rules(dict(rules)))
+            handed = _policy.Rules(dict(rules))
+            enf.set_rules(handed)
+        elif via == 'set_rules-Rules-same-default':
+            handed = _policy.Rules(dict(rules), enf.default_rule)
+            enf.set_rules(handed)
         else:
-            enf.set_rules(_policy.Rules(dict(rules), 'b'))
+            handed = _policy.Rules(dict(rules), 'b')
+            enf.set_rules(handed)
     q = ctx.choice('query', QUERIES)
     # -- oracle -------------------------------------------------------------
     if q in sem:
@@ -153,6 +160,13 @@ def run_table(ctx, config, body):
                                    conf=common.new_conf())
         other.set_rules(enf.rules)
         other.enforce('zzz', {}, {})
+    if handed is not None and bool(ctx.bool('caller_reuses_its_rules_object')):
+        # the object handed over stays the caller's: emptied and refilled
+        # with an allow-all policy for another purpose
+        handed.clear()
+        for n in list(QUERIES) + ['default', 'dflt', 'b']:
+            handed[n] = _parser.parse_rule('@')
+        ctx.cover('caller-reuses-rules-object')
     try:
         _table_checks(ctx, enf, q, want, config, body, via, rules)
     finally:
@@ -248,7 +262,8 @@ HARNESSES = {'table': {'fn': run_table, 'cubes': cubes_table},
              'redefine': {'fn': run_redefine, 'cubes': cubes_redefine}}
 REQUIRED_COVER = ['defined', 'empty-store', 'default-object',
                   'default-name-defined', 'no-usable-default',
-                  'redefine:item-assignment', 'redefine:set_rules-update']
+                  'redefine:item-assignment', 'redefine:set_rules-update',
+                  'caller-reuses-rules-object']
 
 
 def evidence(tier):
